@@ -20,7 +20,7 @@ RULE = ("seeded call histories of 2-7 pipeflow calls on one net object (gas, wat
 ASSUMPTIONS = ["a fresh copy is a new build of the same spec through the public create_* API with the same edits applied"]
 CONFIG = {"quick": {"shards": 8, "timeout_s": 900, "cases": 200},
           "thorough": {"shards": 16, "timeout_s": 3000, "cases": 6000}}
-REQUIRED_COUNTERS = ["purity_checks_on_return", "purity_checks_on_exception", "repeat_bit_identical_checks",
+REQUIRED_COUNTERS = ["calls_without_reuse_after_a_caching_call", "calls_without_reuse_after_a_caching_call_and_structural_edit", "purity_checks_on_return", "purity_checks_on_exception", "repeat_bit_identical_checks",
                      "history_vs_fresh_checks", "history_vs_fresh_after_failure", "heat_from_stored_hydraulics_checks",
                      "edit_and_restore_checks", "outcome_class_checks", "calls_after_feeder_switching"]
 
@@ -83,9 +83,17 @@ def make(case):
             opts.update(tol_p=1e-8, tol_m=1e-8, tol_res=1e-7, tol_T=1e-7)
         if rng.random() < 0.25:
             opts["friction_model"] = str(rng.choice(["colebrook", "swamee-jain"]))
+        if mode != "heat" and rng.random() < 0.3:
+            # cached matrix structure: kept over calls only while the caller asks for it (reuse_internal_data)
+            opts["only_update_hydraulic_matrix"] = True
+            if rng.random() < 0.5:
+                opts["reuse_internal_data"] = True
         edit = None
         e = rng.random()
-        if e < 0.25:
+        pipes = [x["name"] for x in spec["elements"] if x["kind"] in ("pipe", "pipe_std")]
+        if e > 0.85 and pipes:
+            edit = ("flip_pipe", str(rng.choice(pipes)))       # changes the structure of the system matrix; flipping twice restores
+        elif e < 0.25:
             edit = ("scale_loads", float(rng.choice([0.5, 2.0, 50.0])))
             edited = True
         elif e < 0.45 and edited:
@@ -120,6 +128,11 @@ def apply_edit(net, edit, state):
     elif kind == "feeder":
         if "ext_grid" in net and (net.ext_grid["name"] == "eg_island").any():
             net.ext_grid.loc[net.ext_grid["name"] == "eg_island", "in_service"] = arg
+    elif kind == "flip_pipe":
+        row = net.pipe.index[net.pipe["name"] == arg]
+        if len(row):
+            f, t = int(net.pipe.at[row[0], "from_junction"]), int(net.pipe.at[row[0], "to_junction"])
+            net.pipe.at[row[0], "from_junction"], net.pipe.at[row[0], "to_junction"] = t, f
     elif kind == "user_options":
         pp.set_user_pf_options(net, **arg)
     elif kind == "clear_user_options":
@@ -172,11 +185,24 @@ def run_case(case, ctx):
     had_failure = False
     last_hyd_opts = None
     sol_mode = None
+    cache_alive = cache_stale = False
     for ci, c in enumerate(calls):
         apply_edit(net, c["edit"], state)
         if c["edit"] is not None:
             edits_so_far.append(c["edit"])
+            if c["edit"][0] in ("flip_pipe", "feeder") and cache_alive:
+                cache_stale = True
         opts = c["opts"]
+        # A caller who asks to reuse internal data after changing the structure of the network gets what he asked for: such a
+        # call is not judged.  Every call that does not ask for reuse must be independent of whatever an earlier call cached.
+        keeps = bool(opts.get("only_update_hydraulic_matrix") and opts.get("reuse_internal_data"))
+        if keeps and cache_stale:
+            obs.count("reuse_requested_after_structural_edit_not_judged")
+            call(net, opts, sol)
+            continue
+        if cache_alive and not keeps:
+            obs.count("calls_without_reuse_after_a_caching_call" + ("_and_structural_edit" if cache_stale else ""))
+        cache_alive, cache_stale = keeps, False
         # heat-only runs are issued when the object holds the hydraulic-stage solution of the present description
         # (a bidirectional solution is a different one for temperature-dependent flows: QE_DT / QE_TR consumers)
         if opts["mode"] == "heat" and (sol is None or sol_edits != list(edits_so_far) or sol_mode == "bidirectional"):
